@@ -83,6 +83,10 @@ func GetRawProtoField(protoBytes []byte, fieldNumber int) ([]byte, error) {
 				}
 				// calculate the new offset
 				offset += lenBytes
+				// a declared length beyond the remaining bytes (incl. one that overflows int) is malformed
+				if valueLen > uint64(len(protoBytes)-offset) {
+					return nil, fmt.Errorf("field value exceeds buffer bounds")
+				}
 				// extract the field value bytes
 				if offset+int(valueLen) > len(protoBytes) {
 					return nil, fmt.Errorf("field value exceeds buffer bounds")
